@@ -190,11 +190,22 @@ impl<'a> Ent<'a> {
         let (lo, hi) = region.bounds();
         let last = (hi + 1 - size) & !(align - 1);
         let first = (lo + align - 1) & !(align - 1);
-        let a = match self.below(10) {
+        let a = match self.below(11) {
             0 | 1 => first,
             2 | 3 => last,
             4 => first + align * self.below(8),
             5 => last - align * self.below(8),
+            6 => {
+                // carry boundaries of the address arithmetic inside the region: low 8/12/16/20 bits zero,
+                // +/- a few bytes (pointer updates and multi-byte accesses cross them)
+                let span = (last - first) / align + 1;
+                let r = first + align * self.below(span);
+                let bits = self.pick(&[8u32, 12, 16, 16, 20]);
+                let b = r & !((1u32 << bits) - 1);
+                let d = self.pick(&[0i64, 0, -1, 1, -2, 2, -4, 4, -(size as i64), size as i64]);
+                let x = (b as i64 + d).clamp(first as i64, last as i64) as u32;
+                x & !(align - 1)
+            }
             _ => {
                 let span = (last - first) / align + 1;
                 first + align * self.below(span)
